@@ -16,7 +16,8 @@ Coverage of the statement (properties.jsonl C23), clause → theorem(s) proving 
 * "a smaller new length truncates" (larger is ignored) → `writev_refines` / `refines_bytearray` (`Spec.newLength`)
 * "reads are clipped at the current length" → `writev_refines` (readv part), `slot_readv_refines`
 * "test vectors compare against the current data (a missing share reads as empty)" → `refines_bytearray`
-      (`Spec.evalTests`, `Spec.dataOf`); C24 `absent_share_tests_count`
+      (`Spec.evalTests`, `Spec.dataOf`); C24 `absent_share_tests_count`; length vs specimen:
+      `testv_length_exceeding_specimen_fails`
 * "a new length of zero deletes the share" → `refines_bytearray` (`Spec.evalWrites` erases)
 * (order of the write vectors of one request) → `write_vectors_in_order`
 * "data writes never alter the share's leases" → `leases_unchanged_by_data_ops` (container, any vectors, even a failing
@@ -130,6 +131,33 @@ theorem refines_bytearray (qs : List Req) (q : Req) (hfix : q.env.precheck = tru
     · simp only [hg, Bool.not_false, if_true, Except.ok.injEq, Prod.mk.injEq] at hout ⊢
       obtain ⟨rfl, rfl⟩ := hout
       simp
+
+/-! ### a test vector reads exactly `length` bytes (clipped at the end of the data) and compares for equality -/
+
+/-- what the code does with `(offset, length, eq, specimen)`: `_read_share_data(offset, length)` returns `length` bytes
+    when the data extend that far, and `testv_compare` is `==` on the byte strings.  So a vector whose `length`
+    EXCEEDS the specimen's length, over data of at least that extent, FAILS even when the specimen is a prefix of the
+    data — in particular the publisher's must-not-exist guard `(0, 1, eq, b"")` fails on every non-empty share and
+    passes on a missing / empty one.  (Nothing is idealised: a read that is clipped to exactly the specimen's length
+    can still pass, see the examples.) -/
+theorem testv_length_exceeding_specimen_fails (f : File) (hwf : WF f) (o l : Nat) (spec : Bytes)
+    (rest : List (Nat × Nat × Bytes)) (hext : o + l ≤ dataLength f) (hlen : spec.length < l) :
+    checkTestv f ((o, l, spec) :: rest) = false ∧ Spec.testv (absData f) ((o, l, spec) :: rest) = false := by
+  have hal := length_absData hwf
+  have hrl : (Spec.read (absData f) o l).length = l := by
+    unfold Spec.read; exact length_pread_of_le _ _ _ (by rw [hal]; exact hext)
+  have hne : (Spec.read (absData f) o l == spec) = false := by
+    rw [beq_eq_false_iff_ne]
+    intro e; rw [e] at hrl; omega
+  have key : Spec.testv (absData f) ((o, l, spec) :: rest) = false := by
+    simp only [Spec.testv, List.all_cons, hne, Bool.false_and]
+  exact ⟨by rw [checkTestv_eq]; exact key, key⟩
+
+/-- the must-not-exist guard on concrete data; a specimen that is only a prefix; and reads clipped at the end of the
+    data, which can still pass -/
+example : Spec.testv [1, 2, 3] [(0, 1, [])] = false ∧ Spec.testv [] [(0, 1, [])] = true ∧
+    Spec.testv [1, 2, 3] [(0, 3, [1, 2])] = false ∧ Spec.testv [1, 2, 3] [(1, 100, [2, 3])] = true ∧
+    Spec.testv [1, 2, 3] [(0, 2, [1, 2, 3])] = false := by decide
 
 /-! ### the write vectors of one share are applied in the order given -/
 
